@@ -275,3 +275,416 @@ Example ex_nul_answer : confirm (mkInv Compress [[97]] OutDefault false [] (Some
                         confirm (mkInv Compress [[97]] OutDefault false [] (Some 256) false false None None) = false /\
                         confirm (mkInv Compress [[97]] OutDefault false [] (Some 89) false false None None) = true.
 Proof. repeat split; reflexivity. Qed.
+
+(* ================================================================== a937acd at the level of the whole run:
+   crash safety WITHOUT the hypothesis that the destinations of distinct sources are distinct *)
+
+Lemma file_ops_ok_completes : forall i rm s src p v ops,
+  file_ops i rm s src (DOwn p) v = (ops, FOk) -> ops = [] \/ completes i s src (DOwn p) v = true.
+Proof.
+  intros i rm s src p v ops H. unfold file_ops in H. unfold completes.
+  destruct (src_gate i s src v).
+  - inversion H.
+  - inversion H. left. reflexivity.
+  - destruct (codec i (DOwn p) v) as [chunks out] eqn:Ec. cbn [snd].
+    destruct (open_dst (ovw i) s v (Some src) p (negb (is_stdin src))) as [oo [t|]] eqn:Eo; cbn [snd].
+    2:{ inversion H. }
+    destruct out as [| |n].
+    3:{ inversion H. }
+    + destruct (tail_src i rm src v (is_ret0 Ret0 && v_close_ok v)) as [tl r'] eqn:Et. inversion H; subst r'.
+      right. destruct (tail_src_cases _ _ _ _ _ _ _ Et) as [[_ [_ [X _]]]|[_ [X _]]]; [exact X|exact (X eq_refl)].
+    + destruct (tail_src i rm src v (is_ret0 Ret1 && v_close_ok v)) as [tl r'] eqn:Et. inversion H; subst r'.
+      right. destruct (tail_src_cases _ _ _ _ _ _ _ Et) as [[_ [_ [X _]]]|[_ [X _]]]; [exact X|exact (X eq_refl)].
+Qed.
+
+Lemma own_next_incl : forall i own s src d v x, In x own -> In x (own_next i own s src d v).
+Proof.
+  intros i own s src d v x H. unfold own_next. destruct d; try exact H.
+  destruct (completes i s src (DOwn p) v); [right; exact H|exact H].
+Qed.
+
+Section Shared.
+Variables (rel : data -> data -> Prop) (i : inv) (rm : bool) (dof : path -> option dsel) (vs : path -> verdict) (s0 : fs).
+Variables (src0 : path) (f0 : file) (p0 : path).
+Hypothesis Hne : src0 <> p0.
+Hypothesis Hd0 : dof src0 = Some (DOwn p0).
+Hypothesis Hpl : is_lnk (s0 p0) = false.
+Hypothesis Hsound : verdict_sound rel i (f_bytes f0) (vs src0).
+
+(* the source is where it was, or it is gone and its destination is complete (and recorded as this command's output) *)
+Definition Jst (s : fs) : Prop :=
+  s src0 = Reg f0 \/ (s src0 = Absent /\ exists b, s p0 = Reg (mkFile b true) /\ rel b (f_bytes f0)).
+Definition J (s : fs) (own : list (path * path)) : Prop :=
+  s src0 = Reg f0 \/ (s src0 = Absent /\ In (p0, src0) own /\ exists b, s p0 = Reg (mkFile b true) /\ rel b (f_bytes f0)).
+
+Lemma Jst_local : local_to (prot0 src0 (Some p0)) Jst.
+Proof.
+  intros s s' H [X|[X [b [Y Z]]]].
+  - left. rewrite (H src0); [exact X|left; reflexivity].
+  - right. split; [rewrite (H src0); [exact X|left; reflexivity]|].
+    exists b. split; [|exact Z]. rewrite (H p0); [exact Y|right; reflexivity].
+Qed.
+
+Lemma Jst_safe : forall s, Jst s -> safe rel src0 (f_bytes f0) (Some p0) s.
+Proof.
+  intros s [X|[_ [b [Y Z]]]].
+  - left. exists f0. split; [exact X|reflexivity].
+  - right. exists p0, b. split; [reflexivity|]. split; assumption.
+Qed.
+
+Lemma J_Jst : forall s own, J s own -> Jst s.
+Proof. intros s own [X|[X [_ Y]]]; [left; exact X|right; split; assumption]. Qed.
+
+Lemma src0_local : local_to (eq src0) (fun s : fs => s src0 = Reg f0).
+Proof. intros s s' H H1. rewrite (H src0 eq_refl). exact H1. Qed.
+
+(* a segment that leaves src0 alone, started while src0 is in place *)
+Lemma seg_keeps_src0 : forall ops1 s,
+  s src0 = Reg f0 -> Forall (avoids (eq src0)) ops1 ->
+  all_pref (safe2 rel src0 (f_bytes f0) (Some p0)) ops1 s None /\ run ops1 s src0 = Reg f0.
+Proof.
+  intros ops1 s Hs Hav.
+  destruct (avoid_all_pref (eq src0) (fun s => s src0 = Reg f0) src0_local ops1 s None Hs I Hav) as [A1 [A2 _]].
+  split.
+  - eapply all_pref_impl; [|exact A1]. intros s1 h1 [X Y]. split; left; exists f0; split; auto.
+  - rewrite (A2 src0 eq_refl). exact Hs.
+Qed.
+
+(* the segment of another source, started in a state where J holds *)
+Lemma other_segment : forall src' d' own s ops1 r,
+  (d' <> DOwn p0 -> forall i' ops r, sim i i' -> file_ops i' rm s src' d' (vs src') = (ops, r) ->
+                    Forall (avoids (prot0 src0 (Some p0))) ops) ->
+  (forall i' ops r, sim i i' -> file_ops i' rm s src' d' (vs src') = (ops, r) -> Forall (avoids (eq src0)) ops) ->
+  J s own -> lsub s0 s ->
+  file_ops (inv_for i own s src' d') rm s src' d' (vs src') = (ops1, r) ->
+  all_pref (safe2 rel src0 (f_bytes f0) (Some p0)) ops1 s None /\
+  J (run ops1 s) (own_next (inv_for i own s src' d') own s src' d' (vs src')).
+Proof.
+  intros src' d' own s ops1 r Hav HavS HJ HL Ef.
+  pose proof (inv_for_sim i own s src' d') as Hsim.
+  assert (Split : Forall (avoids (prot0 src0 (Some p0))) ops1 \/ (s src0 = Reg f0 /\ Forall (avoids (eq src0)) ops1)).
+  { assert (Dec : d' = DOwn p0 \/ d' <> DOwn p0).
+    { destruct d' as [|c|q|q]; try (right; discriminate).
+      destruct (path_eq_dec q p0) as [E|E]; [left; subst; reflexivity|right; intro X; inversion X; contradiction]. }
+    destruct Dec as [E|E]; [|left; exact (Hav E _ _ _ Hsim Ef)].
+    subst d'. destruct HJ as [X|[X [Hin [b [Y Z]]]]]; [right; split; [exact X|exact (HavS _ _ _ Hsim Ef)]|].
+    left. apply nomod_avoids.
+    assert (Hr : own_refused own s src' p0 = true).
+    { unfold own_refused. assert (L : look s p0 = Reg (mkFile b true)) by (unfold look; rewrite Y; reflexivity).
+      rewrite L. cbn [is_reg andb]. apply existsb_exists. exists (p0, src0). split; [exact Hin|]. cbn [fst snd].
+      assert (S1 : same_file s p0 p0 = true) by (unfold same_file; rewrite L; apply path_eqb_refl).
+      assert (S2 : same_file s src0 src' = false) by (unfold same_file, look; rewrite X; reflexivity).
+      rewrite S1, S2. reflexivity. }
+    exact (proj1 (own_output_not_replaced_thm i rm own s src' p0 (vs src') ops1 r Hr Ef)). }
+  destruct Split as [Hp|[Hs Hp]].
+  - destruct (avoid_all_pref _ _ Jst_local ops1 s None (J_Jst _ _ HJ) I Hp) as [A1 [A2 _]].
+    split.
+    + eapply all_pref_impl; [|exact A1]. intros s1 h1 [X Y]. split; apply Jst_safe; assumption.
+    + assert (E1 : run ops1 s src0 = s src0) by (apply A2; left; reflexivity).
+      assert (E2 : run ops1 s p0 = s p0) by (apply A2; right; reflexivity).
+      destruct HJ as [X|[X [Hin [b [Y Z]]]]].
+      * left. rewrite E1. exact X.
+      * right. split; [rewrite E1; exact X|]. split; [apply own_next_incl; exact Hin|].
+        exists b. split; [rewrite E2; exact Y|exact Z].
+  - destruct (seg_keeps_src0 ops1 s Hs Hp) as [A1 A2]. split; [exact A1|left; exact A2].
+Qed.
+
+Lemma loop_after : forall srcs own s err ops e,
+  ~ In src0 srcs ->
+  (forall src' d', In src' srcs -> dof src' = Some d' -> d' <> DOwn p0 ->
+     forall i' s' ops r, sim i i' -> lsub s0 s' -> file_ops i' rm s' src' d' (vs src') = (ops, r) ->
+                         Forall (avoids (prot0 src0 (Some p0))) ops) ->
+  (forall src' d', In src' srcs -> dof src' = Some d' ->
+     forall i' s' ops r, sim i i' -> lsub s0 s' -> file_ops i' rm s' src' d' (vs src') = (ops, r) ->
+                         Forall (avoids (eq src0)) ops) ->
+  J s own -> lsub s0 s ->
+  loop i rm dof vs own srcs s err = (ops, e) ->
+  all_pref (safe2 rel src0 (f_bytes f0) (Some p0)) ops s None.
+Proof.
+  induction srcs as [|src tl IH]; intros own s err ops e Hnotin Hav HavS HJ HL H; cbn [loop] in H.
+  - inv_pair H. cbn [all_pref unlinked]. split; [|exact I]. split; apply Jst_safe; exact (J_Jst _ _ HJ).
+  - assert (Hnotin' : ~ In src0 tl) by (intro X; apply Hnotin; right; exact X).
+    destruct (dof src) as [d|] eqn:Ed.
+    2:{ eapply IH; [exact Hnotin'| | |exact HJ|exact HL|exact H].
+        - intros a b Ha. apply Hav. right. exact Ha.
+        - intros a b Ha. apply HavS. right. exact Ha. }
+    destruct (file_ops (inv_for i own s src d) rm s src d (vs src)) as [ops1 r] eqn:Ef.
+    destruct (other_segment src d own s ops1 r
+                (fun E i' o r' Hs' Ef' => Hav src d (or_introl eq_refl) Ed E i' s o r' Hs' HL Ef')
+                (fun i' o r' Hs' Ef' => HavS src d (or_introl eq_refl) Ed i' s o r' Hs' HL Ef')
+                HJ HL Ef) as [A1 A2].
+    destruct r as [| |n].
+    3:{ inv_pair H. exact A1. }
+    + destruct (loop i rm dof vs _ tl (run ops1 s) (err || is_fail FOk)) as [ops2 e2] eqn:El.
+      pose proof (IH _ _ _ _ _ Hnotin' (fun a b Ha => Hav a b (or_intror Ha)) (fun a b Ha => HavS a b (or_intror Ha))
+                     A2 (lsub_run _ _ _ HL) El) as B1.
+      inv_pair H. apply all_pref_app. split; [exact A1|].
+      rewrite (file_ops_h_none _ _ _ _ _ _ _ _ Ef) by (intros n; discriminate). exact B1.
+    + destruct (loop i rm dof vs _ tl (run ops1 s) (err || is_fail FFail)) as [ops2 e2] eqn:El.
+      pose proof (IH _ _ _ _ _ Hnotin' (fun a b Ha => Hav a b (or_intror Ha)) (fun a b Ha => HavS a b (or_intror Ha))
+                     A2 (lsub_run _ _ _ HL) El) as B1.
+      inv_pair H. apply all_pref_app. split; [exact A1|].
+      rewrite (file_ops_h_none _ _ _ _ _ _ _ _ Ef) by (intros n; discriminate). exact B1.
+Qed.
+
+(* the state after the tracked source's own segment *)
+Lemma own_segment_end : forall i' own s ops1 r,
+  sim i i' -> s src0 = Reg f0 -> is_lnk (s p0) = false ->
+  file_ops i' rm s src0 (DOwn p0) (vs src0) = (ops1, r) ->
+  all_pref (safe2 rel src0 (f_bytes f0) (Some p0)) ops1 s None ->
+  J (run ops1 s) (own_next i' own s src0 (DOwn p0) (vs src0)).
+Proof.
+  intros i' own s ops1 r Hsim Hs Hpl' Ef A1.
+  destruct (file_ops_src_state _ _ _ _ _ _ _ _ Hne Hpl' Ef) as [X|X]; [left; rewrite X; exact Hs|].
+  right. split; [exact X|].
+  pose proof (all_pref_end _ _ _ _ A1) as [Hsafe _].
+  destruct Hsafe as [[f [Y _]]|[d [b [Ed [Y Z]]]]]; [rewrite X in Y; discriminate Y|].
+  inversion Ed; subst d. split; [|exists b; split; assumption].
+  destruct r as [| |n].
+  - destruct (file_ops_ok_completes _ _ _ _ _ _ _ Ef) as [E|E].
+    + subst ops1. unfold run in X. cbn [fold_left] in X. rewrite Hs in X. discriminate X.
+    + unfold own_next. rewrite E. left. reflexivity.
+  - exfalso. rewrite (file_ops_src_kept _ _ _ _ _ _ _ _ Hne Hpl' Ef) in X by discriminate. rewrite Hs in X. discriminate X.
+  - exfalso. rewrite (file_ops_src_kept _ _ _ _ _ _ _ _ Hne Hpl' Ef) in X by discriminate. rewrite Hs in X. discriminate X.
+Qed.
+
+Lemma loop_shared : forall srcs own s err ops e,
+  NoDup srcs ->
+  (forall src' d', In src' srcs -> src' <> src0 -> dof src' = Some d' -> d' <> DOwn p0 ->
+     forall i' s' ops r, sim i i' -> lsub s0 s' -> file_ops i' rm s' src' d' (vs src') = (ops, r) ->
+                         Forall (avoids (prot0 src0 (Some p0))) ops) ->
+  (forall src' d', In src' srcs -> src' <> src0 -> dof src' = Some d' ->
+     forall i' s' ops r, sim i i' -> lsub s0 s' -> file_ops i' rm s' src' d' (vs src') = (ops, r) ->
+                         Forall (avoids (eq src0)) ops) ->
+  s src0 = Reg f0 -> lsub s0 s ->
+  loop i rm dof vs own srcs s err = (ops, e) ->
+  all_pref (safe2 rel src0 (f_bytes f0) (Some p0)) ops s None.
+Proof.
+  induction srcs as [|src tl IH]; intros own s err ops e Hnd Hav HavS Hs HL H; cbn [loop] in H.
+  - inv_pair H. cbn [all_pref unlinked]. split; [|exact I]. split; left; exists f0; split; auto.
+  - inversion Hnd as [|? ? Hnotin Hnd']; subst.
+    destruct (dof src) as [d|] eqn:Ed.
+    2:{ eapply IH; [exact Hnd'| | |exact Hs|exact HL|exact H].
+        - intros a b Ha. apply Hav. right. exact Ha.
+        - intros a b Ha. apply HavS. right. exact Ha. }
+    destruct (file_ops (inv_for i own s src d) rm s src d (vs src)) as [ops1 r] eqn:Ef.
+    pose proof (inv_for_sim i own s src d) as Hsim.
+    destruct (path_eq_dec src src0) as [E|E].
+    + (* the tracked source itself *)
+      subst src. rewrite Hd0 in Ed. inversion Ed; subst d.
+      assert (Hpl' : is_lnk (s p0) = false).
+      { destruct (s p0) eqn:X; try reflexivity. apply HL in X. rewrite X in Hpl. discriminate Hpl. }
+      destruct (own_file_safe rel _ rm s src0 p0 (vs src0) f0 ops1 r Hs Hne Hpl' (sim_sound _ _ _ _ _ Hsim Hsound) Ef) as [A1 A2].
+      pose proof (own_segment_end _ own s ops1 r Hsim Hs Hpl' Ef A1) as HJ.
+      assert (Hav' : forall src' d', In src' tl -> dof src' = Some d' -> d' <> DOwn p0 ->
+                forall i' s' ops r, sim i i' -> lsub s0 s' -> file_ops i' rm s' src' d' (vs src') = (ops, r) ->
+                                    Forall (avoids (prot0 src0 (Some p0))) ops).
+      { intros a b Ha Hb Hd. assert (Na : a <> src0) by (intro X; subst; contradiction).
+        exact (Hav a b (or_intror Ha) Na Hb Hd). }
+      assert (HavS' : forall src' d', In src' tl -> dof src' = Some d' ->
+                forall i' s' ops r, sim i i' -> lsub s0 s' -> file_ops i' rm s' src' d' (vs src') = (ops, r) ->
+                                    Forall (avoids (eq src0)) ops).
+      { intros a b Ha Hb. assert (Na : a <> src0) by (intro X; subst; contradiction).
+        exact (HavS a b (or_intror Ha) Na Hb). }
+      destruct r as [| |n].
+      3:{ inv_pair H. exact A1. }
+      * destruct (loop i rm dof vs _ tl (run ops1 s) (err || is_fail FOk)) as [ops2 e2] eqn:El.
+        pose proof (loop_after tl _ _ _ _ _ Hnotin Hav' HavS' HJ (lsub_run _ _ _ HL) El) as B1.
+        inv_pair H. apply all_pref_app. split; [exact A1|].
+        rewrite A2 by (intros n; discriminate). exact B1.
+      * destruct (loop i rm dof vs _ tl (run ops1 s) (err || is_fail FFail)) as [ops2 e2] eqn:El.
+        pose proof (loop_after tl _ _ _ _ _ Hnotin Hav' HavS' HJ (lsub_run _ _ _ HL) El) as B1.
+        inv_pair H. apply all_pref_app. split; [exact A1|].
+        rewrite A2 by (intros n; discriminate). exact B1.
+    + (* another source first: it leaves src0 alone *)
+      pose proof (HavS src d (or_introl eq_refl) E Ed _ s ops1 r Hsim HL Ef) as Hav1.
+      destruct (seg_keeps_src0 ops1 s Hs Hav1) as [A1 A2].
+      destruct r as [| |n].
+      3:{ inv_pair H. exact A1. }
+      * destruct (loop i rm dof vs _ tl (run ops1 s) (err || is_fail FOk)) as [ops2 e2] eqn:El.
+        pose proof (IH _ _ _ _ _ Hnd' (fun a b Ha => Hav a b (or_intror Ha)) (fun a b Ha => HavS a b (or_intror Ha))
+                       A2 (lsub_run _ _ _ HL) El) as B1.
+        inv_pair H. apply all_pref_app. split; [exact A1|].
+        rewrite (file_ops_h_none _ _ _ _ _ _ _ _ Ef) by (intros n; discriminate). exact B1.
+      * destruct (loop i rm dof vs _ tl (run ops1 s) (err || is_fail FFail)) as [ops2 e2] eqn:El.
+        pose proof (IH _ _ _ _ _ Hnd' (fun a b Ha => Hav a b (or_intror Ha)) (fun a b Ha => HavS a b (or_intror Ha))
+                       A2 (lsub_run _ _ _ HL) El) as B1.
+        inv_pair H. apply all_pref_app. split; [exact A1|].
+        rewrite (file_ops_h_none _ _ _ _ _ _ _ _ Ef) by (intros n; discriminate). exact B1.
+Qed.
+
+End Shared.
+
+(* crash safety of the whole run without "destinations of distinct sources are distinct" *)
+Theorem shared_dst_safe_main : forall rel i names s0 vs, wf_shared_dst i names s0 ->
+  forall src f0, In src names -> look s0 src = Reg f0 -> verdict_sound rel i (f_bytes f0) (vs src) ->
+  all_pref (safe2 rel (target s0 src) (f_bytes f0) (dst_of i names src)) (fio_main i names s0 vs) s0 None.
+Proof.
+  intros rel i names s0 vs [Hnd [Hw2 [Hw4 Hw5]]] src f0 Hin Hlook Hsound.
+  set (org := target s0 src).
+  assert (Horg : s0 org = Reg f0) by (unfold org; rewrite <- look_target; exact Hlook).
+  assert (Hhold : holds org (f_bytes f0) s0) by (exists f0; split; [exact Horg|reflexivity]).
+  (* org is no destination key, whatever the state *)
+  assert (Hnodst : forall b d p, In b names -> dsel_of i names b = Some d -> dsel_path d = Some p -> org <> p).
+  { intros b d p Hb Ed Ep. unfold org, target. destruct (s0 src) eqn:Es; try (apply (Hw2 src b d p Hin Hb Ed Ep)).
+    apply (proj2 (Hw5 src t Hin Es) b d p Hb Ed Ep). }
+  assert (Hslots : forall b d s' q, In b names -> dsel_of i names b = Some d -> lsub s0 s' -> dslots s' d q -> org <> q).
+  { intros b d s' q Hb Ed HL Hq. destruct d as [|c|p|p]; cbn [dslots] in Hq; try contradiction.
+    - subst q. apply (Hnodst b (DShared p) p Hb Ed eq_refl).
+    - assert (q = p) by (apply (dslots_plain s0 s' p q HL (Hw4 b (DOwn p) p Hb Ed eq_refl) Hq)). subst q.
+      apply (Hnodst b (DOwn p) p Hb Ed eq_refl). }
+  unfold fio_main.
+  destruct (dict_check i s0 vs) as [n|].
+  { apply nomod_tail_safe; [exact Hhold|exact I|repeat constructor]. }
+  destruct (is_concat i names) eqn:Ec.
+  - (* several sources into one destination: no source is ever removed *)
+    assert (Hd : dst_of i names src = None).
+    { unfold dst_of. destruct (concat_shared i names Ec) as [[p [_ Hsh]]|[_ Hsh]]; rewrite Hsh; reflexivity. }
+    rewrite Hd.
+    assert (Hsegs : forall dof, (forall b, dof b = dsel_of i names b) \/ (exists t, (forall b, dof b = Some (DShared t)) /\ org <> t) ->
+              forall src' d', In src' names -> dof src' = Some d' ->
+              forall i' s' ops r, sim i i' -> lsub s0 s' -> file_ops i' false s' src' d' (vs src') = (ops, r) -> Forall (avoids (eq org)) ops).
+    { intros dof Hdof src' d' Hin' Ed' i' s' ops r _ HL Ef.
+      apply (seg_avoid_from_mod _ _ _ _ _ _ _ _ (eq org) Ef); [intros X; discriminate X|].
+      intros q Hq X. subst q. destruct Hdof as [Hdof|[t [Hdof Ht]]].
+      - rewrite Hdof in Ed'. apply (Hslots src' d' s' org Hin' Ed' HL Hq). reflexivity.
+      - rewrite Hdof in Ed'. inversion Ed'; subst d'. cbn [dslots] in Hq. apply Ht. exact Hq. }
+    destruct (concat_shared i names Ec) as [[p [Eo Hsh]]|[Eo Hsh]]; rewrite Eo.
+    + assert (Hp : org <> p) by (apply (Hnodst src (DShared p) p Hin (Hsh src) eq_refl)).
+      assert (Hpl : is_lnk (s0 p) = false) by (apply (Hw4 src (DShared p) p Hin (Hsh src) eq_refl)).
+      destruct (ovw i).
+      2:{ apply nomod_tail_safe; [exact Hhold|exact I|repeat constructor]. }
+      destruct (open_dst true s0 (vs p) None p false) as [oo ot] eqn:Eop.
+      destruct (open_dst_mod _ _ _ _ _ _ _ _ Eop) as [Hoo0 Hot].
+      assert (Hoo : Forall (avoids (eq org)) oo).
+      { eapply Forall_impl; [|exact Hoo0]. intros o Ho q E X. apply Hp. rewrite X.
+        apply (in_slot_plain s0 p q Hpl). apply Ho. exact E. }
+      destruct (untouched_safe rel org (f_bytes f0) None oo s0 None Hhold I Hoo) as [P1 [P2 _]].
+      destruct ot as [t|].
+      2:{ apply all_pref_app. split; [exact P1|].
+          rewrite (run_h_open_dst _ _ _ _ _ _ _ _ None Eop).
+          apply nomod_tail_safe; [exact P2|exact I|repeat constructor]. }
+      assert (Et : t = p) by (apply (in_slot_plain s0 p t Hpl); apply Hot; reflexivity). subst t.
+      destruct (loop i false (fun _ => Some (DShared p)) vs [] names (run oo s0) false) as [ops e] eqn:El.
+      destruct (loop_untouched rel i false (fun _ => Some (DShared p)) vs s0 org (f_bytes f0) None names _ _ _ _ _
+                  (Hsegs _ (or_intror (ex_intro _ p (conj (fun _ => eq_refl) Hp)))) P2 (lsub_run _ _ _ (lsub_refl s0)) El) as [Q1 [Q2 Q3]].
+      apply all_pref_app. split; [exact P1|].
+      rewrite (run_h_open_dst _ _ _ _ _ _ _ _ None Eop).
+      apply all_pref_app. split; [exact Q1|].
+      destruct e as [b|n].
+      * apply (untouched_safe rel org (f_bytes f0) None); [exact Q2|exact Q3|].
+        apply Forall_cons.
+        -- intros q E X. cbn [modifies] in E. inversion E. apply Hp. congruence.
+        -- apply nomod_avoids. destruct (v_close_ok (vs p)); [apply exit_of_nomod|repeat constructor].
+      * apply (untouched_safe rel org (f_bytes f0) None); [exact Q2|exact Q3|constructor].
+    + destruct (loop i false (dsel_of i names) vs [] names s0 false) as [ops e] eqn:El.
+      destruct (loop_untouched rel i false (dsel_of i names) vs s0 org (f_bytes f0) None names _ _ _ _ _
+                  (Hsegs _ (or_introl (fun _ => eq_refl))) Hhold (lsub_refl s0) El) as [Q1 [Q2 Q3]].
+      assert (G : forall tl, Forall nomod tl -> all_pref (safe2 rel org (f_bytes f0) None) (ops ++ tl) s0 None).
+      { intros tl Htl. apply all_pref_app. split; [exact Q1|].
+        apply (untouched_safe rel org (f_bytes f0) None); [exact Q2|exact Q3|apply nomod_avoids; exact Htl]. }
+      destruct (eff_out i names); apply G; destruct e as [b|n]; try constructor;
+        destruct (v_close_ok (vs stdoutmark)); try apply exit_of_nomod; repeat constructor.
+  - (* one destination per source, stdout, or test *)
+    destruct (loop i (eff_rm i names) (dsel_of i names) vs [] names s0 false) as [ops e] eqn:El.
+    destruct (s0 src) as [|fsrc| |t] eqn:Es;
+      try (unfold look in Hlook; rewrite Es in Hlook; discriminate Hlook).
+    + (* the source is a regular file *)
+      assert (Eorg : org = src) by (unfold org, target; rewrite Es; reflexivity).
+      assert (Ef0 : fsrc = f0) by (unfold look in Hlook; rewrite Es in Hlook; inversion Hlook; reflexivity). subst fsrc.
+      destruct (dst_of i names src) as [p0|] eqn:Hd.
+      * (* own destination p0 *)
+        assert (Ed0 : dsel_of i names src = Some (DOwn p0)) by (apply dst_of_own; exact Hd).
+        assert (Hp : src <> p0) by (apply (Hw2 src src (DOwn p0) p0 Hin Hin Ed0); reflexivity).
+        assert (Hpl : is_lnk (s0 p0) = false) by (apply (Hw4 src (DOwn p0) p0 Hin Ed0 eq_refl)).
+        assert (Hav : forall src' d', In src' names -> src' <> src -> dsel_of i names src' = Some d' -> d' <> DOwn p0 ->
+                  forall i' s' ops r, sim i i' -> lsub s0 s' -> file_ops i' (eff_rm i names) s' src' d' (vs src') = (ops, r) ->
+                                   Forall (avoids (prot0 src (Some p0))) ops).
+        { intros src' d' Hin' Hne' Ed' Hnd' i' s' ops' r' _ HL Ef.
+          apply (seg_avoid_from_mod _ _ _ _ _ _ _ _ _ Ef).
+          - intros _ _ [X|X]; [exact (Hne' X)|]. inversion X; subst p0.
+            exact (Hw2 src' src (DOwn src') src' Hin' Hin Ed0 eq_refl eq_refl).
+          - intros q Hq [X|X].
+            + subst q. rewrite <- Eorg in Hq. apply (Hslots src' d' s' org Hin' Ed' HL Hq). reflexivity.
+            + inversion X; subst q. destruct d' as [|c|p|p]; cbn [dslots] in Hq; try contradiction.
+              * exact (not_concat_not_shared i names src' p Ec Ed').
+              * assert (p0 = p) by (apply (dslots_plain s0 s' p p0 HL (Hw4 src' (DOwn p) p Hin' Ed' eq_refl) Hq)). subst p.
+                apply Hnd'. reflexivity. }
+        assert (HavS : forall src' d', In src' names -> src' <> src -> dsel_of i names src' = Some d' ->
+                  forall i' s' ops r, sim i i' -> lsub s0 s' -> file_ops i' (eff_rm i names) s' src' d' (vs src') = (ops, r) ->
+                                   Forall (avoids (eq src)) ops).
+        { intros src' d' Hin' Hne' Ed' i' s' ops' r' _ HL Ef.
+          apply (seg_avoid_from_mod _ _ _ _ _ _ _ _ _ Ef).
+          - intros _ _ X. exact (Hne' (eq_sym X)).
+          - intros q Hq X. subst q. rewrite <- Eorg in Hq. apply (Hslots src' d' s' org Hin' Ed' HL Hq). reflexivity. }
+        rewrite Eorg.
+        pose proof (loop_shared rel i (eff_rm i names) (dsel_of i names) vs s0 src f0 p0 Hp Ed0 Hpl Hsound
+                             names [] s0 false ops e Hnd Hav HavS Es (lsub_refl s0) El) as Q1.
+        apply all_pref_app. split; [exact Q1|].
+        pose proof (all_pref_end _ _ _ _ Q1) as Hend.
+        destruct e as [[|]|n]; cbn [exit_of all_pref apply_op apply_h]; tauto.
+      * (* no destination of its own: nothing modifies src *)
+        assert (Hsegs : forall src' d', In src' names -> dsel_of i names src' = Some d' ->
+                  forall i' s' ops r, sim i i' -> lsub s0 s' -> file_ops i' (eff_rm i names) s' src' d' (vs src') = (ops, r) ->
+                                   Forall (avoids (eq org)) ops).
+        { intros src' d' Hin' Ed' i' s' ops' r' _ HL Ef.
+          apply (seg_avoid_from_mod _ _ _ _ _ _ _ _ _ Ef).
+          - intros Erm Est X. rewrite Eorg in X. subst src'.
+            destruct d' as [|c|p|p].
+            + rewrite (test_no_rm i names src Ed') in Erm. discriminate.
+            + destruct (stdout_no_rm i names src c Ed') as [Y|Y]; congruence.
+            + exact (not_concat_not_shared i names src p Ec Ed').
+            + unfold dst_of in Hd. rewrite Ed' in Hd. discriminate.
+          - intros q Hq X. subst q. apply (Hslots src' d' s' org Hin' Ed' HL Hq). reflexivity. }
+        destruct (loop_untouched rel i (eff_rm i names) (dsel_of i names) vs s0 org (f_bytes f0) None names _ _ _ _ _
+                    Hsegs Hhold (lsub_refl s0) El) as [Q1 [Q2 Q3]].
+        apply all_pref_app. split; [exact Q1|].
+        apply (untouched_safe rel org (f_bytes f0) None); [exact Q2|exact Q3|apply nomod_avoids; apply exit_of_nomod].
+    + (* the source is reached through a symbolic link: its data is under a key nothing modifies *)
+      assert (Eorg : org = t) by (unfold org, target; rewrite Es; reflexivity).
+      destruct (Hw5 src t Hin Es) as [Hnotsrc _].
+      assert (Hsegs : forall src' d', In src' names -> dsel_of i names src' = Some d' ->
+                forall i' s' ops r, sim i i' -> lsub s0 s' -> file_ops i' (eff_rm i names) s' src' d' (vs src') = (ops, r) ->
+                                 Forall (avoids (eq org)) ops).
+      { intros src' d' Hin' Ed' i' s' ops' r' _ HL Ef.
+        apply (seg_avoid_from_mod _ _ _ _ _ _ _ _ _ Ef).
+        - intros _ _ X. apply Hnotsrc. rewrite <- Eorg, X. exact Hin'.
+        - intros q Hq X. subst q. apply (Hslots src' d' s' org Hin' Ed' HL Hq). reflexivity. }
+      destruct (loop_untouched rel i (eff_rm i names) (dsel_of i names) vs s0 org (f_bytes f0) (dst_of i names src) names _ _ _ _ _
+                  Hsegs Hhold (lsub_refl s0) El) as [Q1 [Q2 Q3]].
+      apply all_pref_app. split; [exact Q1|].
+      apply (untouched_safe rel org (f_bytes f0) _); [exact Q2|exact Q3|apply nomod_avoids; apply exit_of_nomod].
+Qed.
+
+
+Theorem shared_dst_all_states_safe : forall rel i ls s0 vs, wf_shared_dst i (eff_srcs i ls s0) s0 ->
+  forall src f0, In src (eff_srcs i ls s0) -> look s0 src = Reg f0 -> verdict_sound rel i (f_bytes f0) (vs src) ->
+  all_pref (safe2 rel (target s0 src) (f_bytes f0) (dst_of i (eff_srcs i ls s0) src)) (fio_ops i ls s0 vs) s0 None.
+Proof.
+  intros rel i ls s0 vs Hwf src f0 Hin Hl Hsound. unfold fio_ops. rewrite (pre_names i ls s0 src Hin).
+  apply shared_dst_safe_main; assumption.
+Qed.
+
+Theorem crash_safe_shared_dst_thm : forall rel i ls s0 vs, wf_shared_dst i (eff_srcs i ls s0) s0 ->
+  forall src f0, In src (eff_srcs i ls s0) -> look s0 src = Reg f0 -> verdict_sound rel i (f_bytes f0) (vs src) ->
+  forall k, safe rel (target s0 src) (f_bytes f0) (dst_of i (eff_srcs i ls s0) src) (run (firstn k (fio_ops i ls s0 vs)) s0) /\
+            safe rel (target s0 src) (f_bytes f0) (dst_of i (eff_srcs i ls s0) src) (run (sigint_ops k (fio_ops i ls s0 vs)) s0).
+Proof.
+  intros rel i ls s0 vs Hwf src f0 Hin Hs Hsound k.
+  pose proof (shared_dst_all_states_safe rel i ls s0 vs Hwf src f0 Hin Hs Hsound) as H.
+  apply (all_pref_firstn _ _ _ _ k) in H. split; [apply H|].
+  unfold sigint_ops. rewrite run_app, run_handler_ops. apply H.
+Qed.
+
+(* satisfiability: zstd -d -f --rm a.zst a.zstd (both destinations are `a`) *)
+Example ex4_wf : wf_shared_dst ex4_inv (eff_srcs ex4_inv no_ls ex4_fs) ex4_fs.
+Proof.
+  assert (En : eff_srcs ex4_inv no_ls ex4_fs = [p_azst; p_azstd]) by reflexivity. rewrite En.
+  assert (Hd : forall b d p, In b [p_azst; p_azstd] -> dsel_of ex4_inv [p_azst; p_azstd] b = Some d -> dsel_path d = Some p -> p = [97]).
+  { intros b d p [Hb|[Hb|[]]] Ed Ep; subst b; vm_compute in Ed; inversion Ed; subst d; cbn [dsel_path] in Ep; inversion Ep; reflexivity. }
+  split; [|split; [|split]].
+  - constructor; [intros [X|[]]; discriminate X|]. constructor; [intros []|constructor].
+  - intros a b d p Ha Hb Ed Ep. rewrite (Hd b d p Hb Ed Ep). destruct Ha as [Ha|[Ha|[]]]; subst a; discriminate.
+  - intros b d p Hb Ed Ep. rewrite (Hd b d p Hb Ed Ep). reflexivity.
+  - intros a t [Ha|[Ha|[]]] Es; subst a; vm_compute in Es; discriminate Es.
+Qed.
